@@ -29,8 +29,9 @@ RULE = ("request streams played from the daemon side (command, nonfatal flag, cw
 ASSUMPTIONS = [
     "the processor object (read/write/lock/shutdown_processor) and the operation object are stubs; write() renders "
     "text the way EbuildProcessor.write does (str(x) + newline)",
-    "whether a valid request is *placed* correctly is C33's business: a success reply is only called untruthful on positive "
-    "evidence of failure; requests PMS forbids (directory without -r, ...) are judged for framing only",
+    "whether a valid request is *placed* correctly (modes, owners, extra entries) is C33's business: a success reply is "
+    "called untruthful on positive evidence of failure or when a requested file/link is absent from the image (wrong type, "
+    "content or link target included); requests PMS forbids (directory without -r, ...) are judged for framing only",
     "an IpcInternalError ('internal failure', build aborted) counts as a truthful failure *status*; on a nonfatal request "
     "it is accepted only when something really failed (injected fault, inputs constructed to fail, external command): a "
     "valid nonfatal request without any failing operation that ends the build violates 'for nonfatal requests the "
@@ -43,7 +44,8 @@ SHARDS = {"quick": 4, "thorough": 16}
 TIMEOUT = {"quick": 240, "thorough": 1100}
 MIN_EVALS = 800
 REQUIRED_COUNTERS = ("requests_judged", "fallback_requests", "fault_runs_fired", "misc_requests", "phase_fatal_failures",
-                     "nonfatal_failures_returned", "fallback_blocked_target_requests", "failed_walk_then_valid_walk")
+                     "nonfatal_failures_returned", "fallback_blocked_target_requests", "failed_walk_then_valid_walk",
+                     "same_name_symlink:fallback-links", "same_name_symlink:dirlink-trees")
 
 P = hx.PKG_ID
 REPLY_RE = re.compile(r"^(?:0|-?\d+\x07[^\n\r]*)$")
@@ -174,10 +176,14 @@ def judge_install(ctx, sc, rec, req, status, text, wire, W, internal=False):
         ctx.count("fault_runs_fired")
     # was the requested state reached?
     completed = None
-    if placement["verdict"] == "ok":
+    absent = []
+    if placement["verdict"] in ("ok", "either"):
         bad = ref.compare(placement, rec.pre, rec.post, sc.src_snap)
+        # requested entries that are simply not there afterwards (placement details such as modes are C33's business)
+        absent = [b for b in bad if b["problem"] in ("missing", "type", "link-target", "content",
+                                                     "relative-link-does-not-resolve", "not-a-hardlink-of")]
         if placement is not exp or fallback:
-            bad = [b for b in bad if b["problem"] in ("missing", "type")]  # modes etc. are the external tool's business
+            bad = [b for b in bad if b["problem"] in ("missing", "type", "link-target")]  # modes: the external tool's
         completed = not bad
     ctx.evaluated()
     ctx.count("requests_judged")
@@ -193,6 +199,9 @@ def judge_install(ctx, sc, rec, req, status, text, wire, W, internal=False):
                 ctx.violation("swallowed-error", W(dict(extra, rule=rec.injected[1], fault_ops=rec.fault_ops)))
         elif fallback and completed is False:
             ctx.violation("untruthful-success", W(dict(extra, rule="incomplete")))
+        elif absent:
+            # success was reported, yet a requested file/link is not in the image (or an older entry is still there)
+            ctx.violation("untruthful-success", W(dict(extra, rule="requested-entry-absent", absent=absent[:6])))
     elif internal:
         ctx.count("internal_failures_accepted")  # the helper crashed: 'internal failure' is what it can truthfully say
         # ... as a status.  But "for nonfatal requests the failure code and message are returned": a nonfatal request
@@ -201,7 +210,8 @@ def judge_install(ctx, sc, rec, req, status, text, wire, W, internal=False):
             ctx.violation("nonfatal-valid-request-aborted-build",
                           W(dict(extra, rule=h, cause=str((rec.exc or {}).get("cause") or (rec.exc or {}).get("type")))))
     else:
-        if not evidence and completed is True and placement["entries"]:
+        if not evidence and completed is True and placement["entries"] and placement["verdict"] == "ok":
+            # ("either": the helper is allowed to refuse, e.g. a directory symlink that is already there)
             ctx.violation("untruthful-failure", W(dict(extra, rule="action-completed")))
     if ctx.want_sample() and (fallback or evidence):
         ctx.sample({"frame": rec.frame, "reply": wire, "evidence": evidence, "install": inst[:2]})
@@ -388,6 +398,43 @@ def scen_failed_walk_then_walk(ctx, base):
         sc.cleanup()
 
 
+def scen_same_name_symlinks(ctx, base):
+    """A symlink is installed under a name that an earlier request installed as a symlink with a different target, on
+    the two paths that create links themselves: symlink sources under *opts that force the external install, and
+    symlinks to directories found by a recursive install."""
+    rng = ctx.rng
+    eapi = rng.choice(igen.EAPIS[4:])
+    tree = igen.gen_tree(rng)
+    sc0 = dict(hx.DEFAULT_SCOPE)
+    sc0["insdesttree"] = "/usr/share/vt"
+
+    def rq(helper, args, **over):
+        s = dict(sc0)
+        s.update(over)
+        return {"helper": helper, "eapi": eapi, "scope": s, "nonfatal": rng.random() < 0.6, "args": args}
+
+    fb = rng.choice(["-m0644 -C", "-m u=rw,go=r", "-m0644 --compare", "-m0644 -b"])
+    how = rng.choice(["fallback-links", "fallback-links", "dirlink-trees"])
+    if how == "fallback-links":
+        names = rng.sample(["README", "conf", "vt.h"], rng.randrange(1, 4))
+        first = rq("doins", ["sym/" + n for n in names], insopts=rng.choice(["-m0644", fb]))
+        script = [first, rq("doins", ["sym2/" + n for n in names], insopts=fb)]
+    else:
+        a, b = rng.sample(["t1/pack", "t2/pack"], 2)
+        script = [rq("doins", ["-r", a]), rq(rng.choice(["doins", "doconfd"]), ["-r", b],
+                                              **({} if rng.random() < 0.5 else {"insopts": fb}))]
+        script[1]["scope"]["insdesttree"] = "/usr/share/vt"
+        if script[1]["helper"] == "doconfd":
+            script[0]["helper"] = "doconfd"
+    sc = hx.Scenario(base, eapi, tree)
+    try:
+        run_records(ctx, sc, hx.ReviveSource(sc, reqs=script), direct=(rng.random() < 0.2))
+        ctx.count("same_name_symlink_second_install")
+        ctx.count("same_name_symlink:" + how)
+    finally:
+        sc.cleanup()
+
+
 def scen_misc(ctx, base, allow_chown):
     rng = ctx.rng
     eapi = rng.choice(["4", "5", "6", "7", "8", "6", "7", "8"])
@@ -453,9 +500,9 @@ def run(ctx):
     # spawning is the expensive part (about a second per external command on a loaded machine)
     n_inst, n_fb, n_misc, n_fault = ctx.budget(12, 160), ctx.budget(3, 60), ctx.budget(5, 80), ctx.budget(4, 50)
     max_k = ctx.budget(4, 0)
-    n_blk, n_walk = ctx.budget(2, 30), ctx.budget(3, 40)
-    total = n_inst + n_fb + n_misc + n_fault + n_blk + n_walk
-    plan = ["i"] * n_inst + ["b"] * n_fb + ["m"] * n_misc + ["f"] * n_fault + ["k"] * n_blk + ["w"] * n_walk
+    n_blk, n_walk, n_sym = ctx.budget(2, 30), ctx.budget(3, 40), ctx.budget(4, 40)
+    total = n_inst + n_fb + n_misc + n_fault + n_blk + n_walk + n_sym
+    plan = ["i"] * n_inst + ["b"] * n_fb + ["m"] * n_misc + ["f"] * n_fault + ["k"] * n_blk + ["w"] * n_walk + ["s"] * n_sym
     ctx.rng.shuffle(plan)
     for i, kind in enumerate(plan):
         if kind in "ib":
@@ -464,6 +511,8 @@ def run(ctx):
             scen_blocked_fallback(ctx, base)
         elif kind == "w":
             scen_failed_walk_then_walk(ctx, base)
+        elif kind == "s":
+            scen_same_name_symlinks(ctx, base)
         elif kind == "m":
             scen_misc(ctx, base, allow_chown)
         else:
